@@ -1,4 +1,6 @@
 import PvlModel.Lemmas.Num
+import PvlModel.Gen.Tables
+import PvlModel.Lemmas.Based
 import PvlModel.Props.C17
 /-!
 # C01 — dump then strict load in the same dialect returns the original module
@@ -23,6 +25,24 @@ theorem C01_int_roundtrip (c : EncCfg) (hs : NumSafe c.d.g = true) (i : Int) :
     ∃ text, encodeValue c (.int i) = .ok text ∧ decodeSimple c.d text = .ok (.int i) := by
   refine ⟨intStr i, ?_, decodeSimple_intStr c.d hs i⟩
   simp [encodeValue, encodeSimple]
+
+/-- **the type dispatch the model relies on is the one in the source**: `Gen.encodeDispatch` and
+    `Gen.encodeDateDispatch` are the `isinstance` chains of `PVLEncoder.encode_simple_value` and
+    `encode_datetype`, read with `ast` on every run.  The model's `Val` constructors are disjoint, Python's
+    classes are not: `bool` is an `int` and `datetime` is a `date`, so the model is right only while `bool` is
+    tested before the numeric types and `datetime` before `date`.  A re-ordering in the code changes the table
+    and this stops checking. -/
+theorem C01_dispatch_order :
+    Gen.encodeDispatch = ["None", "set|frozenset", "list", "datetime|date|time", "bool", "numeric_types", "str"] ∧
+    Gen.encodeDateDispatch = ["datetime", "date", "time"] := by decide
+
+/-- **C01, finite reals round-trip**: the encoders write a real as its `repr` text (the model carries that text);
+    every text of a finite float — first character a digit or `-`, no `#`, `float()` syntax, not an integer
+    literal — is read back by the encoder's own decoder as the real with exactly that text -/
+theorem C01_real_roundtrip (c : EncCfg) (hs : RealSafe c.d.g = true) (ch : Nat) (r : Str) (hc : RealHead ch)
+    (h35 : 35 ∉ ch :: r) (hf : floatOk (ch :: r) = true) (hi : int10 (ch :: r) = none) :
+    ∃ text, encodeValue c (.real (ch :: r)) = .ok text ∧ decodeSimple c.d text = .ok (.real (ch :: r)) :=
+  ⟨ch :: r, by simp [encodeValue, encodeSimple], decodeSimple_real c.d hs ch r hc h35 hf hi⟩
 
 /-- **C01, bare strings round-trip** (restating C17's reader/writer agreement at the value level) -/
 theorem C01_bare_string_roundtrip (c : EncCfg) (s : Str) (h : encodeValue c (.str s) = .ok s) :
